@@ -5,5 +5,10 @@ func moreGens() []struct {
 	name string
 	fn   func() string
 } {
-	return nil
+	return []struct {
+		name string
+		fn   func() string
+	}{
+		{"Conv.v", genConv}, // C02
+	}
 }
